@@ -39,11 +39,14 @@ Print Assumptions order_independent.
 Theorem order_independent_documents : forall (d d' : list instr) s, Permutation d d' -> run (compile d) = Done s ->
   exists s', run (compile d') = Done s' /\ Permutation (sX s) (sX s')
              /\ forall p, lookupP (sP s) p = lookupP (sP s') p.
-Proof.
-  intros d d' s HP H. destruct (done_perm _ _ _ (Permutation_map c_instr HP) H) as (s' & A & B & _ & C).
-  exists s'. auto.
-Qed.
+Proof. exact done_perm_docs. Qed.
 Print Assumptions order_independent_documents.
+
+(* ... hence failing is order-independent too: one order succeeds iff every order does *)
+Theorem success_order_independent : forall d d', Permutation d d' ->
+  ((exists s, run d = Done s) <-> (exists s', run d' = Done s')).
+Proof. exact success_iff. Qed.
+Print Assumptions success_order_independent.
 
 Theorem success_executes_everything_once : forall d s, run d = Done s ->
   Permutation (sX s) (shells d) /\ Permutation (sP s) (all_fuls d) /\ NoDup (map fst (sP s)).
@@ -55,7 +58,7 @@ Print Assumptions success_executes_everything_once.
 Theorem promise_points_to_declarer : forall d s, run d = Done s ->
   (forall p o, lookupP (sP s) p = Some o <-> In (p, o) (all_fuls d)) /\
   (forall a n, In a (shells d) -> In n (a_needs a) -> exists o, lookupP (sP s) n = Some o /\ In (n, o) (all_fuls d)).
-Proof. intros d s H. split; [exact (promise_map_spec d s H)|exact (done_needs_declared d s H)]. Qed.
+Proof. exact promise_decl. Qed.
 Print Assumptions promise_points_to_declarer.
 
 (* 4. a reference to a promise nobody declares, or a promise id declared twice, is never a success —
@@ -87,31 +90,15 @@ Theorem indep_check_decides : forall pm l, indep_check pm l = true -> cell_indep
 Proof. exact indep_check_sound. Qed.
 Print Assumptions indep_check_decides.
 
-(* witness: i1 appends two classes [Ka (super: !promise 2); Kb] to one list, i0 declares promise 2 in
-   another list.  No two instructions extend the same list, yet the order inside the list differs:
-   the member that has to wait is appended after its sibling (known finding sibling-order:deferred-member). *)
-Definition PK : str := [1]%N.  Definition a_packages : str := [2]%N.  Definition a_classes : str := [3]%N.
-Definition nG : str := [4]%N.  Definition nKx : str := [5]%N.  Definition nKa : str := [6]%N.
-Definition nKb : str := [7]%N.  Definition a_super : str := [8]%N.
-Definition wit_i0 : instr :=
-  mkInstr (RObj PK) GNil
-    (GCons a_packages (ICons (IObj (Some 1%N) nG [] (GCons a_classes (ICons (IObj (Some 2%N) nKx [] GNil) INil) GNil)) INil) GNil)
-    [] [].
-Definition wit_i1 : instr :=
-  mkInstr (RObj PK) GNil
-    (GCons a_classes (ICons (IObj None nKa [(a_super, SRef (RProm 2%N))] GNil) (ICons (IObj None nKb [] GNil) INil)) GNil)
-    [] [].
-
+(* witness (Proofs/DeclP.v: wit_i0, wit_i1): i1 appends two classes [Ka (super: !promise 2); Kb] to one list,
+   i0 declares promise 2 in another list.  No two instructions extend the same list, yet the order inside
+   the list differs: the member that has to wait is appended after its sibling (known finding
+   sibling-order:deferred-member). *)
 Theorem store_order_refuted :
   exists (d d' : list instr) s s', Permutation d d' /\ no_shared_list d = true /\
     run (compile d) = Done s /\ run (compile d') = Done s' /\
     read_list PK a_classes (final_log s) <> read_list PK a_classes (final_log s').
-Proof.
-  exists [wit_i0; wit_i1], [wit_i1; wit_i0].
-  eexists. eexists. split; [apply perm_swap|]. split; [vm_compute; reflexivity|].
-  split; [vm_compute; reflexivity|]. split; [vm_compute; reflexivity|].
-  vm_compute. discriminate.
-Qed.
+Proof. exact store_order_witness. Qed.
 Print Assumptions store_order_refuted.
 
 (* non-vacuity of the hypotheses: a document with a forward reference, applied successfully in both
